@@ -61,7 +61,7 @@ def run(W, p):
     if flags["extra_forcing"]:
         y2.append("    extra_forcing: [temp, salt]")
     st_i = (["age: float"] if flags["has_ibm"] else [])
-    st_p = (["super: float", "farm: float"] if flags["has_pvars"] else [])
+    st_p = (["super: float", "farm: int"] if flags["has_pvars"] else [])  # a non-default type: the legacy per-column converter must survive
     y2 += ["state:", "    instance_variables: {" + ", ".join(st_i) + "}", "    particle_variables: {" + ", ".join(st_p) + "}",
            "    default_values: {" + (", ".join(["age: 0"]) if flags["has_ibm"] else "") + "}"]
     y2 += ["tracker:", "    advection: RK4"] + ([f"    diffusion: {diff}"] if flags["diffusion"] else [])
@@ -93,7 +93,7 @@ def run(W, p):
     if flags["extra_forcing"]:
         t2.append('extra_forcing = ["temp", "salt"]')
     t2 += ["[state]", "instance_variables = {" + ('age = "float"' if flags["has_ibm"] else "") + "}",
-           "particle_variables = {" + ('super = "float", farm = "float"' if flags["has_pvars"] else "") + "}",
+           "particle_variables = {" + ('super = "float", farm = "int"' if flags["has_pvars"] else "") + "}",
            "default_values = {" + ("age = 0" if flags["has_ibm"] else "") + "}"]
     t2 += ["[tracker]", 'advection = "RK4"'] + ([f"diffusion = {diff}"] if flags["diffusion"] else [])
     t2 += ["[release]", 'release_file = "rel.rls"', "names = [" + ", ".join(tq(v) for v in relvars) + "]"]
@@ -125,7 +125,7 @@ def run(W, p):
     if flags["continuous"]:
         y1 += ["    release_type: continuous", f"    release_frequency: [{freqv}, h]"]
     if flags["has_pvars"]:
-        y1 += ["    particle_variables: [super, farm]", "    super: float", "    farm: float"]
+        y1 += ["    particle_variables: [super, farm]", "    farm: int"]  # super has no converter: defaults to float
     if flags["has_ibm"]:
         y1 += ["ibm:", "    ibm_module: my_ibm", "    variables: [age]", f"    lifetime: {ibmopt}"]
     y1 += ["output_variables:", f"    outper: [{outv}, h]", "    instance: [pid, X]", "    particle: [" + ("super" if flags["has_pvars"] else "") + "]",
